@@ -402,7 +402,6 @@ func (l *InclusiveRanges) AppendUnique(start, end, step int) {
 
 	subStart := start
 	subEnd := start
-	subStep := step
 	last := start
 	pending := 0 // Track unique value count
 
@@ -420,6 +419,9 @@ func (l *InclusiveRanges) AppendUnique(start, end, step int) {
 		}
 		pred = func() bool { return subEnd >= end }
 	}
+
+	// Sub-ranges use the step in the direction of the range
+	subStep := step
 
 	// Short-circuit if this is the first range being added
 	if len(l.blocks) == 0 {
